@@ -1,6 +1,7 @@
 import Gtree.Lemmas.SourceRefines
 import Gtree.Model.Api
 import Gtree.Lemmas.MkdirExact
+import Gtree.Model.MkOps
 /-
   C06 — mkdir over the finite-map file system model. Proved:
    * if any root "exists" (Stat gives anything but does-not-exist) the call fails with the path-exists
@@ -177,4 +178,25 @@ namespace Gtree
 theorem C06_is_file_is_the_source (exts : List Bytes) (h : Nat) (n : Bytes) (ks : List T) :
     Src.fileConsiderer.isFile ⟨exts⟩ (toNode h (.mk n ks)) = isFileNode exts n (!ks.isEmpty) :=
   isFile_src exts h n ks
+end Gtree
+
+namespace Gtree
+/-- **"Nothing that existed before has changed" in the massive mode, for every schedule**: whatever sequence of
+    `MkdirAll` / `Create` operations reaches the file system — any roots, any interleaving, repetition or cut-off,
+    failing operations included — an entry that existed keeps its kind, unless one of the operations is the
+    `Create` of exactly that path (which a Mkdir into a target where none of the roots existed never issues for an
+    existing entry, `C06_exact`). -/
+theorem C06_preserves_existing_massive : ∀ (ops : List FsOp) (fs : FS) (p : Bytes) (k : Kind), fs.lookup p = some k →
+    (∀ q, FsOp.create q ∈ ops → p ≠ q) → (applyAll fs ops).lookup p = some k
+  | [], fs, p, k, h, _ => h
+  | op :: ops, fs, p, k, h, hne => by
+    simp only [applyAll, List.foldl_cons]
+    have ih := C06_preserves_existing_massive ops (fs.applyOp op).1 p k
+    simp only [applyAll] at ih
+    apply ih
+    · cases op with
+      | mkdirAll q => exact mkdirAll_preserves fs q p k h
+      | create q => exact create_preserves fs q p k (hne q (by simp)) h
+    · intro q hq
+      exact hne q (by simp [hq])
 end Gtree
